@@ -486,13 +486,31 @@ static void prop_c18_lists(const vf::Case& c, Ctx& ctx)
     std::string hist = "schema " + e::to_string(schema);
     int serial = 0;
     bool nt = false;
+    // the two remaining tables of the 2.x table API: ChangeLog (append-only, absent from 2.20.3 on) and the single Information row
+    const bool has_log = schema < e::engine_schema::schema_2_20_3;
+    std::vector<std::pair<int64_t, int64_t>> log;              // (id, track id) in insertion order
+    v2::information_row info = lib.information().get();
+    {
+        bool threw = false;
+        try { auto t = lib.change_log(); (void)t; } catch (const dj::unsupported_operation&) { threw = true; }
+        VF_CHECK(threw == !has_log, hist << ": change_log() " << (threw ? "is refused on a schema that has the table" : "is offered on a schema without the table"));
+    }
     for (size_t rec = 1; rec < c.size(); ++rec)
     {
         S s(c[rec]);
-        int op = static_cast<int>(s.below(11));
-        if (lists.empty())
+        static const int weighted[] = {0, 1, 2, 3, 3, 3, 3, 4, 4, 4, 5, 5, 5, 6, 7, 8, 9, 10, 10, 11, 12};
+        int op = weighted[s.below(sizeof weighted / sizeof *weighted)];
+        if (lists.empty() && op < 11)
             op = 0;
         auto pick = [&]() { auto it = lists.begin(); std::advance(it, s.below(lists.size())); return it->first; };
+        auto pick_full = [&]() {   // entity operations: half of the time the list with the most entries, so that lists grow beyond two entries
+            int64_t id = pick();
+            if (s.coin())
+                for (auto& kv : entries)
+                    if (lists.count(kv.first) && kv.second.size() > entries[id].size())
+                        id = kv.first;
+            return id;
+        };
         switch (op)
         {
             case 0:
@@ -532,6 +550,30 @@ static void prop_c18_lists(const vf::Case& c, Ctx& ctx)
                 lists[id].last_edit_time = p.last_edit_time;
                 lists[id].is_explicitly_exported = p.is_explicitly_exported;
                 ctx.label("playlist:update");
+                break;
+            }
+            case 11:
+            {
+                if (!has_log)
+                    break;
+                auto cl = lib.change_log();
+                static const int edge[] = {0, 1, -1, 2147483647, -2147483647 - 1};
+                int track = s.below(3) == 0 ? edge[s.below(5)] : static_cast<int>(s.below(1000));
+                int64_t id = cl.add(track);
+                hist += " | log_add(" + std::to_string(track) + ")=" + std::to_string(id);
+                VF_CHECK(log.empty() || id > log.back().first, hist << ": change_log add() returned an id not above the previous one");
+                log.emplace_back(id, track);
+                ctx.label("changelog:add");
+                break;
+            }
+            case 12:
+            {
+                static const int64_t edge[] = {0, 1, -1, INT64_MAX, INT64_MIN};
+                int64_t v = s.coin() ? edge[s.below(5)] : static_cast<int64_t>(s.raw());
+                hist += " | played_indicator(" + std::to_string(v) + ")";
+                lib.information().update_current_played_indicator(v);
+                info.current_played_indicator = v;
+                ctx.label("information:played-indicator");
                 break;
             }
             case 9:
@@ -581,7 +623,7 @@ static void prop_c18_lists(const vf::Case& c, Ctx& ctx)
             case 3:
             case 4:
             {
-                int64_t id = pick();
+                int64_t id = pick_full();
                 int64_t track = 1 + static_cast<int64_t>(s.below(6));
                 v2::playlist_entity_row er{v2::PLAYLIST_ENTITY_ROW_ID_NONE, id, track, uuid, 0, static_cast<int64_t>(s.below(3))};
                 bool already = std::find(entries[id].begin(), entries[id].end(), track) != entries[id].end();
@@ -598,7 +640,7 @@ static void prop_c18_lists(const vf::Case& c, Ctx& ctx)
             }
             case 5:
             {
-                int64_t id = pick();
+                int64_t id = pick_full();
                 if (entries[id].empty())
                     break;
                 size_t i = s.below(entries[id].size());
@@ -669,6 +711,30 @@ static void prop_c18_lists(const vf::Case& c, Ctx& ctx)
                 ctx.label("playlist:nonexistent");
                 break;
             }
+        }
+        VF_CHECK(lib.information().get() == info, hist << ": the Information row reads back differently from what was written");
+        if (has_log)
+        {
+            auto cl = lib.change_log();
+            auto by_id = [](const v2::change_log_row& a, const v2::change_log_row& b) { return a.id < b.id; };
+            auto all = cl.all();
+            std::sort(all.begin(), all.end(), by_id);      // all() and after() promise no order
+            bool same = all.size() == log.size();
+            for (size_t i = 0; same && i < all.size(); ++i)
+                same = all[i].id == log[i].first && all[i].track_id == log[i].second;
+            VF_CHECK(same, hist << ": change_log all() differs from the rows added");
+            auto last = cl.last();
+            VF_CHECK(last.has_value() == !log.empty() && (!last || (last->id == log.back().first && last->track_id == log.back().second)), hist << ": change_log last() is not the last row added");
+            int64_t pivot = log.empty() ? 0 : log[s.below(log.size())].first - static_cast<int64_t>(s.below(2));
+            auto aft = cl.after(pivot);
+            std::sort(aft.begin(), aft.end(), by_id);
+            size_t want = 0;
+            for (auto& l : log)
+                want += l.first > pivot;
+            same = aft.size() == want;
+            for (size_t i = 0; same && i < aft.size(); ++i)
+                same = aft[i].id == log[log.size() - want + i].first && aft[i].track_id == log[log.size() - want + i].second;
+            VF_CHECK(same, hist << ": change_log after(" << pivot << ") is not the suffix of rows with a larger id");
         }
         for (auto& kv : order)
         {   // sibling order as written: child_ids()/root_ids() and every row's next_list_id
@@ -827,6 +893,20 @@ static void prop_c16_table(const vf::Case& c, Ctx& ctx)
         for (auto x : et.track_ids(4242))
             o += std::to_string(x) + ",";
         o += "\n";
+        {
+            auto inf = L.information().get();
+            o += "info " + std::to_string(inf.id) + " " + inf.uuid + " " + std::to_string(inf.schema_version_major) + "." + std::to_string(inf.schema_version_minor) + "." +
+                 std::to_string(inf.schema_version_patch) + " " + std::to_string(inf.current_played_indicator) + " " + std::to_string(inf.last_rekord_box_library_import_read_counter) + "\n";
+        }
+        if (schema < e::engine_schema::schema_2_20_3)
+        {
+            auto cl = L.change_log();
+            o += "changelog=";
+            for (auto& x : cl.all())
+                o += std::to_string(x.id) + ":" + std::to_string(x.track_id) + ",";
+            auto last = cl.last();
+            o += " last=" + (last ? std::to_string(last->id) : std::string("-")) + " after=" + std::to_string(cl.after(last ? last->id - 1 : 0).size()) + "\n";
+        }
         L.verify();
         return o;
     };
